@@ -100,7 +100,16 @@ pub fn check_ts(c: &TsCase, st: &mut Stats) -> Result<(), String> {
     if edge || c.ltt.off.abs() > 86400 {
         st.nontrivial(c);
     }
-    match DateTime::from_timespec_and_local(c.u, c.ns, ltt) {
+    let r = DateTime::from_timespec_and_local(c.u, c.ns, ltt);
+    if c.ns >= 1_000_000_000 {
+        // pass-through today; a refusal of out-of-range nanoseconds would be equally compatible with C14
+        st.class("nanoseconds_beyond_one_second_not_asserted");
+        if let Ok(d) = &r {
+            check_dt(d)?;
+        }
+        return Ok(());
+    }
+    match r {
         Ok(d) => {
             if !ok {
                 return Err(format!("{c:?}: instant + offset leaves the supported range but was accepted: {d}"));
